@@ -22,7 +22,8 @@ ASSUMED = [
     common_std.STD_ASSUMPTION,
     {"what": "strum::EnumString for Dialect (Dialect::from_str) is the uninterpreted partial function dialect_of_name(); #[default] on "
              "Dialect::Generic is what Dialect::default() returns (derive output, checked by the thorough-tier Kani harness on the real crate)", "count": 3},
-    {"what": "str::strip_prefix: Some(rest) iff s == prefix + rest; &str == &str compares character sequences", "count": 2},
+    {"what": "str::strip_prefix: Some(rest) iff s == prefix + rest; &str == &str compares character sequences; str::starts_with(prefix) iff s == prefix + rest; "
+             "str::trim_start_matches(prefix) removes the prefix as often as it occurs", "count": 4},
     {"what": "query.def.other.get(\"target\") is the uninterpreted header_target(query) (HashMap<String,String> lookup)", "count": 3},
     {"what": "Option<Result<T,E>>::transpose has its std meaning; Option<Target>::unwrap_or_default returns Target::default() for None "
              "(R5: unwrap_or_default_target calls the real, verified Default impl)", "count": 1},
@@ -67,6 +68,14 @@ pub fn strip_prefix<'a>(s: &'a str, prefix: &str) -> (r: Option<&'a str>)
 
 #[verifier::external_body]
 pub fn str_eq(a: &str, b: &str) -> (r: bool) ensures r == (a@ == b@), { unimplemented!() }
+// str::starts_with / str::trim_start_matches with a literal prefix (the latter removes the prefix as often as it occurs)
+pub open spec fn rep(p: Seq<char>, k: nat) -> Seq<char> decreases k { if k == 0 { Seq::empty() } else { p + rep(p, (k - 1) as nat) } }
+#[verifier::external_body]
+pub fn starts_with_lit(s: &str, prefix: &str) -> (r: bool) ensures r == (exists|rest: Seq<char>| s@ == prefix@ + rest), { unimplemented!() }
+#[verifier::external_body]
+pub fn trim_start_matches_lit<'a>(s: &'a str, prefix: &str) -> (r: &'a str)
+    ensures exists|k: nat| s@ == rep(prefix@, k) + r@ && (k == 0 <==> forall|rest: Seq<char>| s@ != prefix@ + rest), forall|rest: Seq<char>| r@ != prefix@ + rest,
+{ unimplemented!() }
 
 pub assume_specification<T, E>[ Option::<Result<T, E>>::transpose ](o: Option<Result<T, E>>) -> (r: Result<Option<T>, E>)
     ensures
@@ -122,9 +131,13 @@ def build(X):
     fs = X.fn(LIB, "from_str", after="impl FromStr for Target")
     fs.rewrite("R6", "Result<Target, Self::Err>", "Result<Target, Error>")
     fs.rewrite("R6", "fn from_str(", "pub fn target_from_str(", why="trait method as a free function")
-    fs.rewrite("R5", 's.strip_prefix("sql.")', 'strip_prefix(s, "sql.")', why="str::strip_prefix has no Verus specification")
+    fs.rewrite_re("R5", r's\.strip_prefix\("sql\."\)', 'strip_prefix(s, "sql.")', count=None, why="str::strip_prefix has no Verus specification")
+    fs.rewrite_re("R5", r's\.starts_with\(("[a-z.]+")\)', r"starts_with_lit(s, \1)", count=None, why="str::starts_with")
+    fs.rewrite_re("R5", r's\.trim_start_matches\(("[a-z.]+")\)', r"trim_start_matches_lit(s, \1)", count=None, why="str::trim_start_matches (removes the prefix repeatedly)")
     fs.rewrite_re("R5", r'\bdialect == ("[a-z]+")', r"str_eq(dialect, \1)", count=None, why="&str == &str")
-    fs.rewrite_re("R5", r"Err\(Error::new\(Reason::NotFound \{.*?\}\)\)", "Err(opaque_error())", count=1, why="error construction is opaque")
+    fs.rewrite_re("R5", r"Error::new\(Reason::NotFound \{.*?\}\)", "opaque_error()", count=None, why="error construction is opaque")
+    fs.desugar_str_match()
+    fs.desugar_result_ctor_chains()
     fs.ret_name("r")
     fs.contract("""
         ensures
@@ -283,8 +296,12 @@ def sweep():
             not (by_hdr.returncode == 0 and by_opt.returncode == 0 and by_hdr.stdout == by_opt.stdout), by_opt.stdout, by_hdr.stdout + by_hdr.stderr[:200])
     finally:
         shutil.rmtree(w, ignore_errors=True)
-    ok4, bad = replaylib.compile_prql("prql target:sql.nosuchdialect\n" + _PROG, None)
-    rec("DS1d", "header sql.nosuchdialect, no option", ok4 or bad.startswith("PANIC"), "an error", bad)
+    # names that are not in `prqlc list-targets` are errors - as a header and as an option
+    for bad_name in ("sql.nosuchdialect", "sql.sql.mssql", "sql.sql.any", "sql.sql.sql.sqlite", "mssql", "sql.", "sql.any.x", "sql.mssql.x", "SQL.mssql", "sql.MSSQL2"):
+        ok4, bad = replaylib.compile_prql("prql target:%s\n%s" % (bad_name, _PROG), None)
+        rec("FS3", "header %s, no option" % bad_name, ok4 or bad.startswith("PANIC"), "an error", bad)
+        ok5, bad5 = replaylib.compile_prql(_PROG, bad_name)
+        rec("FS3", "option -t %s" % bad_name, ok5 or bad5.startswith("PANIC"), "an error", bad5)
     return out
 
 
